@@ -49,6 +49,10 @@ func c07Run(x *core.Ctx) {
 	rn := &model.Renderer{}
 	for i := 0; i < n; i++ {
 		items := tsys.Schema(r, &tsys.GenOpts{Descs: i%3 == 0, Extensions: i%2 == 0, Small: i%4 == 0})
+		if i%7 == 3 {
+			// one of the specified directives declared again in the user's source, with an extra optional argument
+			items = c13RedefineBuiltin(r, items)
+		}
 		src := rn.RenderSDoc(&model.SDoc{Items: items})
 		c := core.NewCase("schema", "src", src, "expect", "load")
 		x.Do(c, func() { c07Check(x, c) })
@@ -319,6 +323,11 @@ func c07Graph(x *core.Ctx, s *ast.Schema, mg *tsys.Merged) {
 	for _, n := range builtinDirNames {
 		if s.Directives[n] == nil {
 			bad("builtin-directive:missing", "@"+n+" missing", "built-in directives present")
+		}
+	}
+	for opn, rd := range map[string]*ast.Definition{"query": s.Query, "mutation": s.Mutation, "subscription": s.Subscription} {
+		if rd != nil && s.Types[rd.Name] != rd {
+			bad("root:identity("+opn+")", opn+" root "+rd.Name+" is not Types["+rd.Name+"]", "the registered definition")
 		}
 	}
 	// types: the same set as the definitions imply, each with the right kind
